@@ -4,12 +4,15 @@ import (
 	"context"
 	"crypto/tls"
 	"encoding/json"
+	"errors"
 	"fmt"
 	"net/http"
 	"time"
 
 	"github.com/v-byte-cpu/sx/pkg/scan"
 )
+
+var errNotObject = errors.New("response body is not a JSON object")
 
 const (
 	ScanType = "elastic"
@@ -125,6 +128,12 @@ func (c *elasticClient) Get(ctx context.Context, url string) (data map[string]in
 	}
 	defer resp.Body.Close()
 	decoder := json.NewDecoder(resp.Body)
-	err = decoder.Decode(&data)
+	if err = decoder.Decode(&data); err != nil {
+		return
+	}
+	// a JSON null decodes into a nil map without an error
+	if data == nil {
+		err = errNotObject
+	}
 	return
 }
